@@ -33,6 +33,8 @@ T = {
             "The machine threads the furthest-failure register exactly like ParseState; ghost attempt sets judge it in every failing behaviour. On the real code the reported position/detail is judged against the attempts recorded by H2.", "lookahead membership of an attempt is taken from the specification's run of the same case", "4 C10"),
     "C11": (MC, "TLC scanner machine vs the property's definition, every (text, position) replayed into PrettyParseError::from_parse_error",
             "A scanner machine (offset, line, column, line start) is model-checked against the property's own definition on every text and boundary position up to the bound; TLC's enumeration is turned into one implementation test per final state (location line, echoed line, caret column; with/without file name; colours off/on), plus seeded long random texts.", "Display output is parsed by the harness; trailing whitespace of the echoed line is trimmed by the renderer and ignored", "4 C11"),
+    "C12": (MC, "TLC running PegMachine on grammar.ebnf itself (Meta, obtained by an independent reader) over laid-out grammar texts; trees compared with the real front end and the source AST; layout / escape families replayed behaviourally",
+            "The front end is an instance of the specified machine: TLC checks that PegMachine instantiated with grammar.ebnf conforms to the reference semantics and computes, for every laid-out text, the structure the syntax denotes; the real front end's Debug tree must be identical and must be the AST the text was printed from; every repository grammar is read identically by an independent reader of doc/syntax.md; parsers generated from wildly spelled grammars and from every escape form behave as their AST says.", "trust in the independent reader is confined to grammar.ebnf and cross-checked; the layout printer embodies the documented syntax", "4 C12"),
     "C13": (MC, "TLC on grammar and inlined twin + real twin-vs-twin comparison of results, error positions and emitted type declarations",
             "Each grammar and its textual inlining are both model-checked against the reference and run on the real code; results, ranges, error positions and the generated public type declarations must agree between twins.", "inlining is done by the generator (gen/families.py inline)", "4 C13"),
     "C14": (MC, "TLC CheckExtern with mirrored oracle library + replay with recorded user-function calls",
